@@ -50,7 +50,7 @@ for flat in (True, False):
             KEYMAPS.append({'cls': 'keymap', 'opt': None, 'flat': flat, 'typed': typed, 'sentinel': sentinel})
             for enc in (None, 'repr'):
                 KEYMAPS.append({'cls': 'stringmap', 'opt': enc, 'flat': flat, 'typed': typed, 'sentinel': sentinel})
-            for ser in (None, 'dill'):
+            for ser in (None, 'dill', 'dill-module'):
                 KEYMAPS.append({'cls': 'picklemap', 'opt': ser, 'flat': flat, 'typed': typed, 'sentinel': sentinel})
             for alg in ('md5', 'sha1', 'sha256'):
                 KEYMAPS.append({'cls': 'hashmap', 'opt': alg, 'flat': flat, 'typed': typed, 'sentinel': sentinel})
@@ -65,15 +65,18 @@ for alg in OTHER_ALGS:
 
 
 def stable_values():
-    base = st.one_of(V.ints(False), V.strs(True), V.strs(False), V.NONE, V.BOOLS, V.floats(True), V.bytess())
+    base = st.one_of(V.ints(False), V.strs(True), V.strs(False), V.NONE, V.BOOLS, V.floats(True), V.bytess(), st.deferred(lambda: MAINOBJ))
     return st.recursive(base, lambda ch: st.one_of(
         st.lists(ch, max_size=3).map(lambda xs: ['t', xs]),
         st.lists(ch, max_size=2).map(lambda xs: ['l', xs]),
         st.lists(st.tuples(V.strs(False), ch), max_size=2).map(lambda kvs: ['d', [list(kv) for kv in kvs]])), max_leaves=4)
 
 
+MAINOBJ = st.one_of(V.ints(), V.strs(False)).map(lambda x: ['M', x])      # instance of a class defined in the worker's __main__
+
+
 def hashable_values():
-    base = st.one_of(V.ints(False), V.strs(True), V.strs(False), V.NONE, V.BOOLS, V.floats(True), V.bytess())
+    base = st.one_of(V.ints(False), V.strs(True), V.strs(False), V.NONE, V.BOOLS, V.floats(True), V.bytess(), MAINOBJ)
     return st.recursive(base, lambda ch: st.lists(ch, max_size=3).map(lambda xs: ['t', xs]), max_leaves=4)
 
 
@@ -141,6 +144,8 @@ def intern_all(v):
         return [intern_all(x) for x in v]
     if isinstance(v, dict):
         return dict((intern_all(k), intern_all(x)) for k, x in v.items())
+    if type(v).__name__ == 'MainPoint':
+        v.x = intern_all(v.x)
     return v
 
 
@@ -256,7 +261,9 @@ def _keys(case):
             out.append(Discrepancy('C17/%s/%s/key-differs-between-interpreters' % (it['path'], kmtag),
                                    'sig %r binding %r forms %r: keys %r' % (it['sig'], it['binding'], it['forms'], ks)))
             continue
+        del classes_seen[:]
         has_str = _has_str(it['binding'])
+        classes.extend(set(classes_seen))
         a0, k0 = S.spell_full(it['sig'], it['binding'], it['forms'][0])
         if has_str:
             classes.append('has_str')
@@ -267,10 +274,16 @@ def _keys(case):
     return out, nts, classes
 
 
+classes_seen = []
+
+
 def _has_str(b):
     def hs(spec):
         if spec[0] == 's':
             return True
+        if spec[0] == 'M':
+            classes_seen.append('main_class_instance')
+            return hs(spec[1])
         if spec[0] in 'tl':
             return any(hs(x) for x in spec[1])
         if spec[0] == 'd':
@@ -331,6 +344,6 @@ def session_try(case, root, which):
         return ('exc', '%r\n%s' % (e, traceback.format_exc()[-1500:]))
 
 
-REQUIRED_CLASSES = ['mode:keys', 'mode:sessions', 'has_str', 'two_keywords', 'session_other_spelling', 'keymap:keymap', 'keymap:stringmap', 'keymap:picklemap', 'keymap:hashmap'] + \
+REQUIRED_CLASSES = ['main_class_instance', 'mode:keys', 'mode:sessions', 'has_str', 'two_keywords', 'session_other_spelling', 'keymap:keymap', 'keymap:stringmap', 'keymap:picklemap', 'keymap:hashmap'] + \
     ['session-cfg:' + c for c in SESSION_CFGS]
 TRIGGERS = {}
